@@ -46,6 +46,21 @@ macro "c23_rat" hc:term " with " hd:ident : tactic =>
 macro "c23_rat0" hc:term : tactic =>
   `(tactic| (c23_unfold; (try (repeat' apply And.intro)); all_goals (c23_field $hc)))
 
+/-- variants for goals known to involve `c`: normalise, rewrite the powers of `c`, compare (no first
+attempt with plain `ring1`, which would fail after a full normalisation) -/
+macro "c23_ringc" hc:term : tactic =>
+  `(tactic| first
+      | rfl
+      | (ring_nf; (try c_powers $hc); first | done | ring1))
+macro "c23_fieldc" hc:term : tactic =>
+  `(tactic| first
+      | rfl
+      | (field_simp <;> (ring_nf; (try c_powers $hc); first | done | ring1))
+      | c23_ringc $hc)
+/-- all components, rational case with atomic denominators already in context, goals involving `c` -/
+macro "c23_rat0c" hc:term : tactic =>
+  `(tactic| (c23_unfold; (try (repeat' apply And.intro)); all_goals (c23_fieldc $hc)))
+
 /-! ### determinant facts for the restricted shapes -/
 theorem plane_det (f0 f1 f2 f3 f4 : K) : (plane f0 f1 f2 f3 f4).det = (f0 * f1 - f3 * f4) * f2 := by
   simp only [plane, M3.det]; ring
